@@ -14,21 +14,40 @@ Proof. exact ids_fresh_reach. Qed.
     Register / Forward step is either pending at that moment (then the step is
     refused) or was never registered on this connection.  Step lists without
     caller-supplied ids (the blocking and the WebSocket client have none) satisfy
-    it outright; with forwarded ids it is a genuine hypothesis, see
-    [C04_id_reuse_refuted] below. *)
+    it outright.  Since the repair of the async client's cleanup guard it is
+    needed only for the two statements that are about reuse itself:
+    [C04_ids_distinct] and [C04_legacy_guard_same_without_reuse]. *)
 Theorem C04_all_fresh_without_forward : forall ws l, N.of_nat (length l) + 2 < two64 ->
   existsb is_forward l = false -> all_fresh ws mux0 l = true.
 Proof. exact nofwd_all_fresh. Qed.
 
-(** the ids registered on one connection (counter-issued or caller-supplied),
-    and those put on the wire, are pairwise distinct (below 2^64 - 2 steps,
-    i.e. before the counter can wrap) *)
+(** the ids drawn from the counter strictly increase (below 2^64 - 3 steps, i.e.
+    before the counter can wrap): the id a later counter call draws is greater
+    than the one an earlier counter call drew, whatever happens in between,
+    caller-supplied ids included *)
+Theorem C04_counter_ids_increase : forall ws l1 l2 c,
+  N.of_nat (length l1 + length l2) + 3 < two64 -> enabled (run ws mux0 l1) (Register c) = true ->
+  m_next (run ws mux0 l1) < m_next (run ws mux0 (l1 ++ Register c :: l2)).
+Proof. exact counter_ids_increase. Qed.
+
+(** the cleanup that removes a call's entry by id alone (the blocking client's
+    remove_pending, the WebSocket client's guard, the async client's guard before
+    its repair) is the same function as the repaired one on every run in which
+    no id is registered twice -- in particular on every run of the two clients
+    that have no caller-supplied ids *)
+Theorem C04_legacy_guard_same_without_reuse : forall ws l, N.of_nat (length l) + 2 < two64 ->
+  all_fresh ws mux0 l = true -> run_legacy ws mux0 l = run ws mux0 l.
+Proof. exact legacy_same_reach. Qed.
+
+(** all the ids registered on one connection (counter-issued or caller-supplied),
+    and those put on the wire, are pairwise distinct exactly as long as no id is
+    reused *)
 Theorem C04_ids_distinct : forall ws l, N.of_nat (length l) + 2 < two64 -> all_fresh ws mux0 l = true ->
   NoDup (map snd (m_issued (run ws mux0 l))) /\ NoDup (map snd (m_wire (run ws mux0 l))).
 Proof. exact ids_distinct_reach. Qed.
 
 (** the pending map is injective both ways: one entry per id, one id per caller *)
-Theorem C04_pending_inj : forall ws l, N.of_nat (length l) + 2 < two64 -> all_fresh ws mux0 l = true ->
+Theorem C04_pending_inj : forall ws l, N.of_nat (length l) + 2 < two64 ->
   NoDup (map fst (m_pending (run ws mux0 l))) /\
   forall id1 id2 c, In (id1, c) (m_pending (run ws mux0 l)) -> In (id2, c) (m_pending (run ws mux0 l)) -> id1 = id2.
 Proof. exact pending_inj_reach. Qed.
@@ -41,12 +60,12 @@ Theorem C04_register_never_collides : forall ws l, N.of_nat (length l) + 2 < two
 Proof. exact register_never_collides_reach. Qed.
 
 (** whatever is delivered to caller c carries the id issued to c *)
-Theorem C04_own_response : forall ws l c f, N.of_nat (length l) + 2 < two64 -> all_fresh ws mux0 l = true ->
+Theorem C04_own_response : forall ws l c f, N.of_nat (length l) + 2 < two64 ->
   In (c, OGot f) (m_out (run ws mux0 l)) -> aget (m_issued (run ws mux0 l)) c = Some (f_id f).
 Proof. exact own_response_reach. Qed.
 
 (** a call ends at most once *)
-Theorem C04_at_most_one : forall ws l, N.of_nat (length l) + 2 < two64 -> all_fresh ws mux0 l = true ->
+Theorem C04_at_most_one : forall ws l, N.of_nat (length l) + 2 < two64 ->
   NoDup (map fst (m_out (run ws mux0 l))).
 Proof. exact at_most_one_reach. Qed.
 
@@ -76,7 +95,7 @@ Theorem C04_ws_notify_to_subscriber_only : forall s f, f_notify f <> 0 ->
 Proof. exact ws_notify_readable. Qed.
 
 (** WebSocket client: no call ever returns a notification frame *)
-Theorem C04_ws_no_notify_to_caller : forall l c f, N.of_nat (length l) + 2 < two64 -> all_fresh true mux0 l = true ->
+Theorem C04_ws_no_notify_to_caller : forall l c f, N.of_nat (length l) + 2 < two64 ->
   In (c, OGot f) (m_out (run true mux0 l)) -> f_notify f = 0.
 Proof. exact ws_no_notify_to_caller_reach. Qed.
 
@@ -90,14 +109,14 @@ Proof. exact disabled_stutter. Qed.
     matched to the owner; and in every continuation whatever the owner is
     handed carries that id *)
 Theorem C04_forward_duplicate_refused : forall ws l0 c id o,
-  N.of_nat (length l0) + 2 < two64 -> all_fresh ws mux0 l0 = true ->
+  N.of_nat (length l0) + 2 < two64 ->
   let s := run ws mux0 l0 in
   aget (m_pending s) id = Some o -> enabled s (Forward c id) = true ->
   let s' := mstep ws s (Forward c id) in
   s' = mkMux (m_next s) (m_pending s) (m_issued s) (m_wire s) (m_matched s) (m_out s ++ [(c, ORefused)]) (m_sub s) (m_dropped s) /\
   (forall f, m_matched s = None -> ws && negb (f_notify f =? 0) = false -> f_id f = id ->
      m_matched (mstep ws s' (Recv f)) = Some (o, f)) /\
-  (forall l f, N.of_nat (length l0 + length l) + 3 < two64 -> all_fresh ws s' l = true ->
+  (forall l f, N.of_nat (length l0 + length l) + 3 < two64 ->
      In (o, OGot f) (m_out (run ws s' l)) -> f_id f = id).
 Proof. exact forward_duplicate_refused_reach. Qed.
 
@@ -182,29 +201,51 @@ Definition c04_fwd : c04_case :=
 
 Example C04_nonvacuous_forward :
   c04_wf c04_fwd = true /\
-  model_C04 c04_fwd = mkObs [CGot 0; CGot 1; CRefused; CGot 3; CGot 4; CRefused; CGot 6; CNone] [] [1; 2; 3; 4; 9].
+  model_C04 c04_fwd = mkObs [CGot 0; CGot 1; CRefused; CGot 3; CGot 4; CRefused; CGot 6; CNone] [] [1; 2; 4].
 Proof. vm_compute. split; reflexivity. Qed.
 
 (** the oracle rejects the owner losing its response to a refused duplicate *)
 Example C04_oracle_rejects_forward :
-  ok_C04 c04_fwd (mkObs [CGot 0; CClosed; CRefused; CGot 3; CGot 4; CRefused; CGot 6; CNone] [] [1; 2; 3; 4; 9]) = false /\
-  ok_C04 c04_fwd (mkObs [CGot 0; CGot 1; CRefused; CGot 3; CGot 4; CRefused; CGot 6; CRefused] [] [1; 2; 3; 4; 9]) = false.
+  ok_C04 c04_fwd (mkObs [CGot 0; CClosed; CRefused; CGot 3; CGot 4; CRefused; CGot 6; CNone] [] [1; 2; 4]) = false /\
+  ok_C04 c04_fwd (mkObs [CGot 0; CGot 1; CRefused; CGot 3; CGot 4; CRefused; CGot 6; CRefused] [] [1; 2; 4]) = false.
 Proof. vm_compute. split; reflexivity. Qed.
 
-(** REFUTED without [all_fresh]: caller 0's response (id 1) has been taken out
-    of the pending map by the reader but not yet handed over; a forward with
-    id 1 is accepted (the id is free again); caller 0 times out and its guard
-    removes "its" entry by id -- which now belongs to caller 1; the response to
-    caller 1 is then dropped as unknown and caller 1 never gets it *)
+(** id reuse.  Caller 0's response (id 1) has been taken out of the pending map
+    by the reader but not yet handed over; a forward with id 1 is accepted (the
+    id is free again); caller 0 times out.  Before the repair the guard removed
+    "its" entry by id -- which by then belonged to caller 1: the response to
+    caller 1 was dropped as unknown and caller 1 never got it ([model_C04_legacy]
+    violates the oracle).  The repaired guard leaves caller 1's entry alone and
+    caller 1 gets its own response: the case is well-formed and the oracle holds. *)
 Definition c04_reuse : c04_case :=
   mkCase false 2
     [Register 0; Write 0; Srv (SReply 0 0); Forward 1 1; Write 1; Timeout 0; Deliver; Srv (SReply 1 0)].
 
 Example C04_id_reuse_refuted :
-  all_enabled false mux0 (c_sched c04_reuse) = true /\
   all_fresh false mux0 (c_sched c04_reuse) = false /\
-  model_C04 c04_reuse = mkObs [CTimeout; CClosed] [] [1; 1] /\
-  ok_C04 c04_reuse (model_C04 c04_reuse) = false.
+  model_C04_legacy c04_reuse = mkObs [CTimeout; CClosed] [] [1] /\
+  ok_C04 c04_reuse (model_C04_legacy c04_reuse) = false.
+Proof. vm_compute. repeat split; reflexivity. Qed.
+
+Example C04_id_reuse_repaired :
+  c04_wf c04_reuse = true /\
+  model_C04 c04_reuse = mkObs [CTimeout; CGot 1] [] [1] /\
+  ok_C04 c04_reuse (model_C04 c04_reuse) = true.
+Proof. vm_compute. repeat split; reflexivity. Qed.
+
+(** what remains a hypothesis ([all_srv_own] in [c04_wf]) and why: responses are
+    correlated by id alone.  Caller 0 gives up, its id 1 is registered again by
+    caller 1, and then the response to caller 0's request arrives after all: it
+    carries id 1 and no client can tell it from the response to caller 1's
+    request -- caller 1 is handed it. *)
+Definition c04_late : c04_case :=
+  mkCase false 2 [Register 0; Write 0; Timeout 0; Forward 1 1; Write 1; Srv (SReply 0 0)].
+
+Example C04_late_reply_after_reuse :
+  all_enabled false mux0 (c_sched c04_late) = true /\
+  all_srv_own false mux0 (c_sched c04_late) = false /\
+  model_C04 c04_late = mkObs [CTimeout; CGot 0] [] [1] /\
+  ok_C04 c04_late (model_C04 c04_late) = false.
 Proof. vm_compute. repeat split; reflexivity. Qed.
 
 (** batch: 5 requests, 2 workers, an uneven schedule; result = request + 100 *)
@@ -218,27 +259,32 @@ Proof. vm_compute. repeat split; reflexivity. Qed.
 Check C04_all_fresh_without_forward : forall ws l, N.of_nat (length l) + 2 < two64 ->
   existsb is_forward l = false -> all_fresh ws mux0 l = true.
 Check C04_forward_duplicate_refused : forall ws l0 c id o,
-  N.of_nat (length l0) + 2 < two64 -> all_fresh ws mux0 l0 = true ->
+  N.of_nat (length l0) + 2 < two64 ->
   let s := run ws mux0 l0 in
   aget (m_pending s) id = Some o -> enabled s (Forward c id) = true ->
   let s' := mstep ws s (Forward c id) in
   s' = mkMux (m_next s) (m_pending s) (m_issued s) (m_wire s) (m_matched s) (m_out s ++ [(c, ORefused)]) (m_sub s) (m_dropped s) /\
   (forall f, m_matched s = None -> ws && negb (f_notify f =? 0) = false -> f_id f = id ->
      m_matched (mstep ws s' (Recv f)) = Some (o, f)) /\
-  (forall l f, N.of_nat (length l0 + length l) + 3 < two64 -> all_fresh ws s' l = true ->
+  (forall l f, N.of_nat (length l0 + length l) + 3 < two64 ->
      In (o, OGot f) (m_out (run ws s' l)) -> f_id f = id).
+Check C04_counter_ids_increase : forall ws l1 l2 c,
+  N.of_nat (length l1 + length l2) + 3 < two64 -> enabled (run ws mux0 l1) (Register c) = true ->
+  m_next (run ws mux0 l1) < m_next (run ws mux0 (l1 ++ Register c :: l2)).
+Check C04_legacy_guard_same_without_reuse : forall ws l, N.of_nat (length l) + 2 < two64 ->
+  all_fresh ws mux0 l = true -> run_legacy ws mux0 l = run ws mux0 l.
 Check C04_ids_fresh : forall ws l id c, N.of_nat (length l) + 2 < two64 -> existsb is_forward l = false ->
   In (id, c) (m_pending (run ws mux0 l)) -> id < m_next (run ws mux0 l).
 Check C04_ids_distinct : forall ws l, N.of_nat (length l) + 2 < two64 -> all_fresh ws mux0 l = true ->
   NoDup (map snd (m_issued (run ws mux0 l))) /\ NoDup (map snd (m_wire (run ws mux0 l))).
-Check C04_pending_inj : forall ws l, N.of_nat (length l) + 2 < two64 -> all_fresh ws mux0 l = true ->
+Check C04_pending_inj : forall ws l, N.of_nat (length l) + 2 < two64 ->
   NoDup (map fst (m_pending (run ws mux0 l))) /\
   forall id1 id2 c, In (id1, c) (m_pending (run ws mux0 l)) -> In (id2, c) (m_pending (run ws mux0 l)) -> id1 = id2.
 Check C04_register_never_collides : forall ws l, N.of_nat (length l) + 2 < two64 -> existsb is_forward l = false ->
   aget (m_pending (run ws mux0 l)) (m_next (run ws mux0 l)) = None.
-Check C04_own_response : forall ws l c f, N.of_nat (length l) + 2 < two64 -> all_fresh ws mux0 l = true ->
+Check C04_own_response : forall ws l c f, N.of_nat (length l) + 2 < two64 ->
   In (c, OGot f) (m_out (run ws mux0 l)) -> aget (m_issued (run ws mux0 l)) c = Some (f_id f).
-Check C04_at_most_one : forall ws l, N.of_nat (length l) + 2 < two64 -> all_fresh ws mux0 l = true ->
+Check C04_at_most_one : forall ws l, N.of_nat (length l) + 2 < two64 ->
   NoDup (map fst (m_out (run ws mux0 l))).
 Check C04_unknown_dropped : forall ws s f,
   m_matched s = None -> ws && negb (f_notify f =? 0) = false -> aget (m_pending s) (f_id f) = None ->
@@ -254,7 +300,7 @@ Check C04_ws_notify_to_subscriber_only : forall s f, f_notify f <> 0 ->
   let s' := mstep true s (Recv f) in
   m_pending s' = m_pending s /\ m_out s' = m_out (deliver s) /\ m_sub s' = m_sub s ++ [f] /\
   m_dropped s' = m_dropped (deliver s) /\ m_matched s' = None.
-Check C04_ws_no_notify_to_caller : forall l c f, N.of_nat (length l) + 2 < two64 -> all_fresh true mux0 l = true ->
+Check C04_ws_no_notify_to_caller : forall l c f, N.of_nat (length l) + 2 < two64 ->
   In (c, OGot f) (m_out (run true mux0 l)) -> f_notify f = 0.
 Check C04_disabled_stutter : forall ws s st, enabled s st = false -> mstep ws s st = s.
 Check C04_batch_aligned : forall res_of reqs sched i r,
@@ -268,6 +314,8 @@ Check C04_holds : forall cs, c04_wf cs = true -> ok_C04 cs (model_C04 cs) = true
 
 Print Assumptions C04_all_fresh_without_forward.
 Print Assumptions C04_forward_duplicate_refused.
+Print Assumptions C04_counter_ids_increase.
+Print Assumptions C04_legacy_guard_same_without_reuse.
 Print Assumptions C04_ids_fresh.
 Print Assumptions C04_ids_distinct.
 Print Assumptions C04_pending_inj.
